@@ -341,7 +341,6 @@ def check_emission(res, sc, tag, n_op, entry, text, prog, decls, ids, constraint
                 return False
     if first_call and 0 < n_true < n_all:
         res.nontrivial = True
-    # 4. native graph terms carry N and M of the posted node (denotation covers the rest)
     return True
 
 
